@@ -307,34 +307,56 @@ def run(facts, rep, events, model):
     # try_lock_exclusive propagates the error of flock (cvt_r) : its result derives from cvt_r's
     tle = facts.body(TRY_LOCK)
     n += 1
-    def reports_errno(fid, depth=0):
-        fb = facts.bodies.get(fid)
-        if fb is None or depth > 3:
-            return False
-        for _b, t_ in fb.calls():
-            c_ = t_.get("callee") or ""
-            if c_.endswith("Error::last_os_error") or (c_ in facts.bodies and facts.bodies[c_].crate == "nomt" and reports_errno(c_, depth + 1)):
-                return True
-        return False
-
-    def returns_cvt_r(b_, depth=0):
-        """the function's result is the result of a helper that is handed a closure performing libc::flock and that turns the
-        -1 convention into `Error::last_os_error()` (today `cvt_r`), possibly through further helpers of the crate"""
-        for r in trace(b_, {"l": 0}, extra_transparent=("core::result::Result::map",)):
-            if r.kind != "call" or str(r.what) not in facts.bodies or facts.bodies[str(r.what)].crate != "nomt":
+    def origins(b_, op, depth=0, seen=None):
+        """names of the calls a value is computed from, looking through Result combinators, functions of the crate (their
+        return value) and closures of the crate that are invoked (their return value)"""
+        seen = seen if seen is not None else set()
+        out = set()
+        if depth > 6:
+            return out
+        for r in trace(b_, op, deep=True):
+            if r.kind not in ("call", "via") or r.obj is None:
+                if r.kind == "agg" and r.obj is not None:
+                    for o in r.obj.get("ops", []):
+                        out |= origins(b_, o, depth + 1, seen)
                 continue
-            takes_flock = False
-            for a in (r.obj or {}).get("args", []):
-                for x in trace(b_, a):
-                    if x.kind == "agg" and x.obj is not None and x.obj.get("ak") == "closure":
-                        cb_ = facts.bodies.get(x.obj.get("name"))
-                        if cb_ is not None and any((t_.get("callee") or "").endswith("::flock") and (t_.get("callee") or "").startswith("libc::") for _b, t_ in cb_.calls()):
-                            takes_flock = True
-            if takes_flock and reports_errno(str(r.what)):
-                return True
-            if depth < 3 and returns_cvt_r(facts.bodies[str(r.what)], depth + 1):
-                return True
-        return False
+            c_ = str(r.what)
+            key = (b_.id, r.bb, c_)
+            if key in seen:
+                continue
+            seen.add(key)
+            out.add(c_)
+            args = r.obj.get("args", [])
+            if c_.startswith(("core::result::Result", "core::option::Option", "core::ops::control_flow", "<core::result::Result", "<core::option::Option")):
+                for a in args[:1]:
+                    out |= origins(b_, a, depth + 1, seen)
+            elif c_ in facts.bodies and facts.bodies[c_].crate == "nomt":
+                out |= origins(facts.bodies[c_], {"l": 0}, depth + 1, seen)
+                for a in args:
+                    out |= origins(b_, a, depth + 1, seen)
+            elif c_.startswith("core::ops::function::Fn") and args:
+                # a closure being invoked: its own result
+                for x in trace(b_, args[0], deep=True):
+                    if x.kind == "agg" and x.obj is not None and x.obj.get("ak") == "closure" and x.obj.get("name") in facts.bodies:
+                        out |= origins(facts.bodies[x.obj["name"]], {"l": 0}, depth + 1, seen)
+                    if x.kind == "param":
+                        # a closure parameter: the closures handed in by the callers
+                        for (cid, cbb, kk) in facts.callers().get(b_.id, []):
+                            cb_ = facts.bodies.get(cid)
+                            if cb_ is None or kk != "call":
+                                continue
+                            ta = cb_.term(cbb)["args"]
+                            if x.what - 1 < len(ta):
+                                for y in trace(cb_, ta[x.what - 1], deep=True):
+                                    if y.kind == "agg" and y.obj is not None and y.obj.get("ak") == "closure" and y.obj.get("name") in facts.bodies:
+                                        out |= origins(facts.bodies[y.obj["name"]], {"l": 0}, depth + 1, seen)
+        return out
+
+    def returns_cvt_r(b_):
+        """the result of try_lock_exclusive is computed from the libc::flock call and from Error::last_os_error(): the outcome
+        of the lock attempt is what is reported (today: cvt_r(|| flock(..)).map(drop))"""
+        os_ = origins(b_, {"l": 0})
+        return any(o.startswith("libc::") and o.endswith("::flock") for o in os_) and any(o.endswith("Error::last_os_error") for o in os_)
 
     ok = returns_cvt_r(tle)
     rep.check(ok, "D2", "sys::unix::try_lock_exclusive", "propagates-errno", "try_lock_exclusive no longer returns the outcome of the flock call", site=tle.span, detail="cvt_r(|| flock(..)).map(drop)")
